@@ -22,6 +22,7 @@ type PropConfig struct {
 	Packages      []string       `json:"packages"`
 	Functions     []string       `json:"functions"` // regexps over short function keys of contracts to verify
 	Exclude       []string       `json:"exclude"`
+	OtherProps    []string       `json:"other_properties_obligations"` // regexps on obligation IDs of a function shared between properties: reported by the other property's check, dropped here
 	MinObls       int            `json:"min_obligations"`
 	NotDecided    []string       `json:"not_decided"`
 	Assumes       []string       `json:"assumptions"`
@@ -201,7 +202,18 @@ func cmdCheck(args []string) {
 		for _, e := range r.Errs {
 			engineErrs = append(engineErrs, r.Short+": "+e)
 		}
-		all = append(all, r.Obls...)
+		for _, o := range r.Obls {
+			// obligations of a shared function that belong to another property's check
+			other := false
+			for _, re := range cfg.OtherProps {
+				if regexp.MustCompile(re).MatchString(o.ID) {
+					other = true
+				}
+			}
+			if !other {
+				all = append(all, o)
+			}
+		}
 	}
 	var dynSites []string
 	if cfg.JSONSweep {
